@@ -3,8 +3,28 @@ import ipaddress
 
 from vlib import common
 
+import os
+
+
+def _ref_for(pkgname):
+    """instantiate the shared record types + reference evaluator for a package; path relative to harness/go"""
+    tmpl = open(os.path.join(common.VERIF, "harness", "go", "c09", "c09ref_test.go.tmpl")).read()
+    d = os.path.join(common.VERIF, "harness", "go", "_gen")
+    os.makedirs(d, exist_ok=True)
+    p = os.path.join(d, "c09ref_%s_test.go" % pkgname)
+    text = tmpl.replace("__PKG__", pkgname)
+    if not os.path.exists(p) or open(p).read() != text:
+        with open(p, "w") as f:
+            f.write(text)
+    return "_gen/c09ref_%s_test.go" % pkgname
+
+
 GO = dict(module="extras", pkg="outbounds", pkgname="outbounds",
-          files={"zz_verif_c09_test.go": "c09/c09_test.go"}, run="TestVerifC09")
+          files={"zz_verif_c09_test.go": "c09/c09_test.go", "zz_verif_c09ref_test.go": _ref_for("outbounds")}, run="TestVerifC09")
+# concurrency class: in-package harness of extras/outbounds/acl (gates around the rule matchers, goroutine stress)
+GO_CONC = dict(module="extras", pkg="outbounds/acl", pkgname="acl",
+               files={"zz_verif_c09conc_test.go": "c09/c09conc_test.go", "zz_verif_c09ref_test.go": _ref_for("acl")},
+               run="TestVerifC09Conc")
 PARAMS_NAME = "ParamsC09"
 HEADER = ("From Hy Require Import lib.Harness model.C09_ACL corr.C09_Corr.\nFrom Coq Require Import ZArith.\n"
           "Local Open Scope N_scope.\n")
@@ -16,7 +36,14 @@ RULE = ("seeded generator: rule lists (1-7 rules) over a small per-case universe
         "variants of each other (port +-1 at range ends, other protocol, 4-byte vs v4-mapped 16-byte address, address in the other "
         "slot, bit flips at the CIDR boundary, case / trailing dots / label-boundary variants of the name) with ABAB thrashing and repeats. "
         "Non-trivial = the list compiled and the history contains a repeated query and more distinct queries than the cache holds, or "
-        "answers from at least two different rules. Distinct = distinct JSON case.")
+        "answers from at least two different rules. Distinct = distinct JSON case. "
+        "Concurrency class (in-package harness of extras/outbounds/acl): gate schedules - every rule's matcher is wrapped in a gate, "
+        "lookups of mostly cold keys are suspended inside their rule scan (at a chosen rule or the first one evaluated; some twice) while "
+        "other lookups of the same and of other keys start, return or are suspended too, resumed in any order, also with the key's "
+        "entry created and evicted meanwhile (exactly one lookup runs at a time: deterministic) - and stress cases: 4-12 goroutines x "
+        "12 rounds (thorough 60) asking 10-20 keys of a cold rule set of 150-300 rules at the same instant (spin barrier, staggered); "
+        "thorough also runs the class under -race. Every answer is compared with the reference evaluator, a never-asked rule set and the "
+        "LTS of model/C09_Conc.v run on the observed schedule.")
 ASSUMPTIONS = [
     "host names and patterns are ASCII and no query label starts with 'xn--' (idna.ToUnicode is then the identity; read in x/net/idna, not modelled)",
     "geoip:/geosite: rules need a database and are outside the property's grammar clause: not modelled, not generated",
@@ -24,6 +51,8 @@ ASSUMPTIONS = [
     "(hypotheses of C09_key_injective / C09_cache_invisible; sampled by the harness on every generated address)",
     "hashicorp/golang-lru is abstracted as a finite map with an arbitrary eviction oracle (strictly more behaviours than any LRU); "
     "its Get/Add are atomic (library mutex)",
+    "a Match call touches shared state only in Cache.Get and Cache.Add, and Add is handed the final scan result by value "
+    "(step relation of model/C09_Conc.v; tied to the code by gate schedules that suspend lookups between their Get and their Add)",
     "outbound values handed to Compile are not the zero value of their type (the engine passes non-nil outbounds)",
     "ParseTextRules (regexp line parser) is not modelled; the harness checks that it returns the generated fields",
 ]
@@ -188,9 +217,9 @@ class Universe:
         return out
 
 
-def gen_one(rng, kind, tier):
+def gen_one(rng, kind, tier, force_valid=False):
     u = Universe(rng)
-    valid = rng.random() < 0.85
+    valid = rng.random() < 0.85 or force_valid
     nobs = rng.randint(1, 3)
     if kind == "acl":
         obs = ["ob%d" % (i + 1) for i in range(nobs)]
@@ -405,6 +434,8 @@ def fingerprint(c, o):
     why = o.get("why") or ""
     if "panic" in why:
         return "acl-panic"
+    if c.get("k") in ("gate", "stress"):
+        return "acl-answer-depends-on-overlapping-lookup"
     if "caching is visible" in why or "earlier in the history" in why:
         return "acl-cache-visible"
     if "rejected" in why:
@@ -443,14 +474,279 @@ def search(ctx, disagreeing):
     return found
 
 
+# ---------------------------------------------------------------- concurrency class (overlapping lookups)
+
+def gen_gate(rng):
+    """deterministic interleavings: lookups suspended inside their rule scan (a gate around a rule's matcher) while
+    other lookups of the same / other keys start, run to completion or are suspended too, resumed in any order"""
+    c = gen_one(rng, "acl", "quick", force_valid=True)
+    if c["cache"] < 1:
+        c["cache"] = 2
+    nr = len(c["rules"])
+    dq = []
+    for q in c["qs"]:
+        if q not in dq:
+            dq.append(q)
+    cold = list(dq)
+    rng.shuffle(cold)
+    hot = []
+    steps = []
+
+    def pick():
+        # mostly a key nobody has asked yet (its entry does not exist when the suspended lookup starts)
+        if cold and (not hot or rng.random() < 0.7):
+            hot.append(cold.pop())
+            return hot[-1]
+        return rng.choice(hot)
+    n = [0]
+
+    def gate():
+        r = rng.random()
+        return -2 if r < 0.45 else (rng.randrange(nr) if r < 0.9 else -1)
+
+    def start(q, g):
+        steps.append([0, q[0], q[1], q[2], g])
+        n[0] += 1
+        return n[0] - 1
+
+    want = rng.randint(6, 16)
+    while n[0] < want:
+        pat = rng.randrange(6)
+        h = pick()
+        if pat == 0:      # B entirely inside A's scan, then A, then a later lookup
+            a = start(h, gate())
+            start(h, -1)
+            steps.append([1, a, -1])
+            start(h, -1)
+        elif pat == 1:    # two suspended lookups of one key, resumed in the other order
+            a = start(h, gate())
+            b = start(h, gate())
+            x, y = (b, a) if rng.random() < 0.6 else (a, b)
+            steps.append([1, x, -1])
+            start(h, -1)
+            steps.append([1, y, -1])
+            start(h, -1)
+        elif pat == 2:    # the entry of the suspended lookup's key is created and evicted meanwhile
+            a = start(h, gate())
+            start(h, -1)
+            for _ in range(rng.randint(1, 4)):
+                start(rng.choice(dq), -1)
+            start(h, -1)
+            steps.append([1, a, -1])
+            start(h, -1)
+        elif pat == 3:    # suspended twice, at two rules, with a lookup in each window
+            a = start(h, gate())
+            start(h, -1)
+            steps.append([1, a, rng.randrange(nr)])
+            start(rng.choice(hot), -1)
+            steps.append([1, a, -1])
+        elif pat == 4:    # several keys suspended at once
+            ss = [start(pick(), gate()) for _ in range(rng.randint(2, 4))]
+            for q in rng.sample(hot, len(hot)):
+                start(q, -1)
+            rng.shuffle(ss)
+            for x in ss:
+                steps.append([1, x, rng.choice([-1, -1, rng.randrange(nr)])])
+        else:             # anything
+            for _ in range(rng.randint(2, 6)):
+                if n[0] and rng.random() < 0.4:
+                    steps.append([1, rng.randrange(n[0]), rng.choice([-1, -2, rng.randrange(nr)])])
+                else:
+                    start(pick(), gate())
+    return {"k": "gate", "obs": c["obs"], "rules": c["rules"], "cache": c["cache"], "hosts": c["hosts"], "steps": steps}
+
+
+def gen_stress(rng, tier):
+    """a few hundred rules none of which matches before the last ones, keys that are decided by those last rules,
+    asked by g goroutines at once on a cold rule set, reps times"""
+    obs = ["ob1", "ob2", "ob3"]
+    rules = []
+    nfill = rng.choice([150, 200, 300])
+    for i in range(nfill):
+        r = rng.random()
+        ob = rng.choice(obs)
+        if r < 0.45:
+            addr = rng.choice(["*.f%d.example.*", "*f%d*.tgt.*.org", "w*.f%d.tgt.example.com", "*.tgt.example.com.f%d"]) % i
+        elif r < 0.65:
+            addr = "suffix:f%d.tgt.example.net" % i
+        elif r < 0.85:
+            addr = "10.%d.%d.0/24" % (1 + i % 100, i // 100)
+        else:
+            addr = "f%d.tgt.example.com" % i
+        rules.append({"ob": ob, "addr": addr, "pp": rng.choice(["", "tcp", "udp", "*/1-65535", "tcp/443"]), "hj": ""})
+    tail = [{"ob": "ob2", "addr": "suffix:tgt.example.com", "pp": "tcp/443", "hj": "127.0.0.1"},
+            {"ob": "ob3", "addr": "*.tgt.example.com", "pp": "udp", "hj": ""},
+            {"ob": "ob1", "addr": "10.200.0.0/16", "pp": "", "hj": "2001:db8::53"},
+            {"ob": "ob3", "addr": "h*.tgt.example.com", "pp": "tcp/80-90", "hj": "9.9.9.9"}]
+    rng.shuffle(tail)
+    rules += tail
+    if rng.random() < 0.5:
+        rules.append({"ob": rng.choice(obs), "addr": "all", "pp": rng.choice(["", "tcp"]), "hj": rng.choice(["", "1.1.1.1"])})
+    hosts = []
+    for i in range(rng.randint(6, 10)):
+        n = rng.choice(["h%d.tgt.example.com", "H%d.TGT.example.com.", "h%d.x.tgt.example.com"]) % i
+        v4 = bytes([10, 200, rng.randrange(256), i]) if rng.random() < 0.4 else b""
+        hosts.append({"n": n, "v4": v4.hex(), "v6": ""})
+    hosts.append({"n": "nomatch.example.org", "v4": bytes([10, 200, 1, 1]).hex(), "v6": ""})
+    hosts.append({"n": "nomatch.example.org", "v4": bytes([192, 168, 1, 1]).hex(), "v6": ""})
+    keys = []
+    for _ in range(rng.randint(10, 20)):
+        k = [rng.randrange(len(hosts)), rng.choice([1, 2]), rng.choice([443, 443, 80, 90, 91, 53])]
+        if k not in keys:
+            keys.append(k)
+    return {"k": "stress", "obs": obs, "rules": rules, "cache": rng.choice([2, 16, 1024]), "hosts": hosts, "keys": keys,
+            "g": rng.choice([4, 8, 12]), "reps": 12 if tier == "quick" else 60, "seed": rng.randrange(1 << 30)}
+
+
+def gen_conc(rng, tier):
+    scale = 1 if tier == "quick" else 12
+    cases = []
+    # the shape of the classic mistake, spelled out once: B entirely inside A's scan of a key a rule decides
+    H = lambda n: {"n": n, "v4": "", "v6": ""}
+    cases.append({"k": "gate", "obs": ["ob1", "ob2"],
+                  "rules": [{"ob": "ob1", "addr": "suffix:ads.example.com", "pp": "tcp/443", "hj": "127.0.0.1"},
+                            {"ob": "ob2", "addr": "suffix:example.com", "pp": "", "hj": ""}],
+                  "cache": 16, "hosts": [H("t.ads.example.com"), H("www.example.com"), H("example.org")],
+                  "steps": [[0, 0, 1, 443, 0], [0, 0, 1, 443, -1], [1, 0, -1], [0, 0, 1, 443, -1],
+                            [0, 1, 2, 53, -2], [0, 1, 2, 53, -2], [1, 3, -1], [1, 2, -1],
+                            [0, 2, 1, 80, 1], [0, 2, 1, 80, -1], [1, 6, -1]]})
+    for _ in range(70 * scale):
+        cases.append(gen_gate(rng))
+    for _ in range(3 * (1 if tier == "quick" else 8)):
+        cases.append(gen_stress(rng, tier))
+    return cases
+
+
+def conc_to_coq(c, o):
+    if o.get("panic") or o.get("cerr") is not False or o.get("stuck"):
+        return None
+    rules = "[" + ";".join("mkTRule %s %s %s %s" % (cb(r["ob"]), cb(r["addr"]), cb(r["pp"]), cb(r["hj"])) for r in c["rules"]) + "]"
+    hosts = "[" + ";".join("mkHost %s %s %s" % (cb(h["n"]), cb(bytes.fromhex(h["v4"])), cb(bytes.fromhex(h["v6"]))) for h in c["hosts"]) + "]"
+    obs = "[" + ";".join("(%s,%d)" % (cb(n), i + 1) for i, n in enumerate(c["obs"])) + "]"
+    pool, idx, seen = [], [], {}
+
+    def intern(ob, hj):
+        t = "(%d,%s)" % (ob, cb(bytes.fromhex(hj)))
+        if t not in seen:
+            seen[t] = len(pool)
+            pool.append(t)
+        return seen[t]
+    if c["k"] == "gate":
+        if any(a[0] < 0 for a in o["ans"]):
+            return None
+        evs = "[" + ";".join(("HStart (%d%%nat,%d,%d)" % (e[1], e[2], e[3])) if e[0] == 0 else ("HDone %d%%nat" % e[1])
+                             for e in o["ev"]) + "]"
+        idx = [intern(a[0], a[1]) for a in o["ans"]]
+        return "CConc %s %s (%d)%%Z %s %s [%s] [%s]%%nat" % (obs, rules, c["cache"], hosts, evs, ";".join(pool), ";".join(map(str, idx)))
+    prs = [p for p in o["pairs"] if p[1] >= 0]
+    qs = "[" + ";".join("(%d%%nat,%d,%d)" % tuple(c["keys"][p[0]]) for p in prs) + "]"
+    idx = [intern(p[1], p[2]) for p in prs]
+    return "CConcAny %s %s (%d)%%Z %s %s [%s] [%s]%%nat" % (obs, rules, c["cache"], hosts, qs, ";".join(pool), ";".join(map(str, idx)))
+
+
+def run_conc_stream(ctx):
+    """Go side of the concurrency class; the Coq side runs in finish (after the proof stage built corr/C09_Corr.vo)"""
+    import random
+    cases = gen_conc(random.Random(ctx.seed * 7919 + 9), ctx.tier)
+    ok, outs, _, log = common.run_go_cases(ctx, GO_CONC, cases, tag="conc")
+    viol = []
+    if not ok:
+        ctx.say("Go harness (concurrent lookups) failed:\n" + log[-2000:])
+        viol.append({"what": "tie broken: concurrent-lookup harness for C09 did not build/run against the current tree (%s)" % log.strip()[-300:],
+                     "replay": {"broken": "go harness (concurrent lookups)", "log": log[-3000:]}, "found_input": False, "fingerprint": None})
+        outs = outs if len(outs) == len(cases) else []
+    seen = set()
+    susp = overl = 0
+    for c, o in zip(cases, outs):
+        if c["k"] == "gate" and "parks" in o:
+            susp += sum(1 for x in o["parks"] if x)
+            # lookups that returned while another one was suspended
+            open_, st = set(), 0
+            for e in o["ev"]:
+                if e[0] == 0:
+                    open_.add(st)
+                    st += 1
+                else:
+                    open_.discard(e[1])
+                    if open_:
+                        overl += 1
+        if o.get("ok") is False:
+            fp = fingerprint(c, o)
+            if fp in seen:
+                continue
+            seen.add(fp)
+            viol.append({"what": "%s: %s" % (c["k"], o.get("why")), "replay": {"conc_case": c, "impl": o}, "fingerprint": fp,
+                         "found_input": True})
+    cov = {"evaluations": len(cases), "gate_schedules": sum(1 for c in cases if c["k"] == "gate"),
+           "stress_cases": sum(1 for c in cases if c["k"] == "stress"), "lookups_suspended_inside_scan": susp,
+           "lookups_returned_while_another_was_suspended": overl,
+           "simultaneous_lookups": sum(p[3] for o in outs for p in o.get("pairs", []))}
+    if ctx.tier == "thorough" and ok:
+        # the same class under the race detector (a subset: the detector slows the run ~10x)
+        sub = cases[:120] + [c for c in cases if c["k"] == "stress"][:6]
+        rok, routs, _, rlog = common.run_go_cases(ctx, GO_CONC, sub, tag="concrace", timeout=1500, race=True)
+        cov["race_detector_cases"] = len(sub)
+        cov["race_detector_clean"] = bool(rok)
+        if not rok:
+            racy = "DATA RACE" in rlog
+            i0 = rlog.find("WARNING: DATA RACE")
+            viol.append({"what": ("concurrent lookups: the race detector reports a data race between overlapping Match calls"
+                                  if racy else "tie broken: concurrent-lookup harness failed under -race") + " (%s)" % rlog[max(i0, 0):][:600].strip(),
+                         "replay": {"broken": "go test -race on the concurrent-lookup class", "log": rlog[max(i0, 0):][:6000],
+                                    "conc_case": sub[len(routs)] if len(routs) < len(sub) else sub[0]},
+                         "found_input": racy, "fingerprint": "acl-data-race" if racy else None})
+    ctx.say("concurrent lookups: %d gate schedules (%d lookups suspended inside their scan, %d lookups returned meanwhile), "
+            "%d stress cases (%d simultaneous lookups)" % (cov["gate_schedules"], susp, overl, cov["stress_cases"], cov["simultaneous_lookups"]))
+    return viol, cov, {"cases": cases, "outs": outs}
+
+
+def eval_conc(ctx, st, impl_bad):
+    import time
+    terms, tidx = [], []
+    for i, (c, o) in enumerate(zip(st["cases"], st["outs"])):
+        t = conc_to_coq(c, o)
+        if t is not None:
+            terms.append(t)
+            tidx.append(i)
+    t1 = time.time()
+    eok, mm, err = common.eval_cases(ctx, "conc", HEADER, terms, 16)
+    ctx.say("coq evaluation of %d concurrent schedules (LTS of model/C09_Conc.v): %.1fs, disagreements=%d" % (len(terms), time.time() - t1, len(mm)))
+    viol = []
+    if not eok:
+        viol.append({"what": "no longer shown to hold: concurrent correspondence evaluation (%s)" % err[:300],
+                     "replay": {"broken": "corr.C09_Corr (CConc) evaluation", "err": err[-2000:]}, "fingerprint": None, "found_input": False})
+    elif mm and not impl_bad:
+        dis = [{"conc_case": st["cases"][tidx[j]], "impl": st["outs"][tidx[j]]} for j in mm[:5]]
+        viol.append({"what": "no longer shown to hold: correspondence C09_Corr (concurrent LTS) on %d schedule(s)" % len(mm),
+                     "replay": {"broken": "corr.C09_Corr CConc", "disagreeing_cases": dis}, "fingerprint": None, "found_input": False})
+    return viol, {"schedules_validated_against_model": len(terms), "model_impl_disagreements": len(mm)}
+
+
 def run(ctx):
     import sys
-    return common.run_case_check(ctx, sys.modules[__name__])
+    conc_viol, conc_cov, conc_state = run_conc_stream(ctx)
+    orig = common.finish
+
+    def fin(ctx_, pinfo, cov, violations, assumptions, **kw):
+        cov = dict(cov)
+        pv, pcov = eval_conc(ctx_, conc_state, any(v.get("found_input") for v in list(violations) + conc_viol))
+        conc_cov.update(pcov)
+        cov["concurrent_lookup_stream"] = conc_cov
+        return orig(ctx_, pinfo, cov, list(violations) + conc_viol + pv, assumptions, **kw)
+    common.finish = fin
+    try:
+        return common.run_case_check(ctx, sys.modules[__name__])
+    finally:
+        common.finish = orig
 
 
 def replay(ctx, path):
     import json
     r = json.load(open(path))
+    if r["replay"].get("conc_case"):
+        ok, outs, _, log = common.run_go_cases(ctx, GO_CONC, [r["replay"]["conc_case"]], tag="replay")
+        print(json.dumps(outs, indent=1)[:6000])
+        return 0 if outs and outs[0].get("ok") else 1
     c = r["replay"].get("case")
     if not c:
         print("replay file names a broken obligation/correspondence, no concrete input:", r["what"])
